@@ -2,6 +2,7 @@ import Driver.C07
 import Qryn.LogQL.PlannerMetric
 import Qryn.LogQL.SemMetric
 import Qryn.LogQL.PostMetric
+import Qryn.LogQL.OpsText
 namespace Driver.C08
 open Qryn Qryn.Sql Qryn.LogQL Driver.C07
 
@@ -153,6 +154,7 @@ def handle : List String → Option String
     let (f, t, st, dd) := (← fromNs.toInt?, ← toNs.toInt?, ← step.toInt?, ← d.toInt?)
     let w := fixWindow f t dd
     some s!"{w.1} {w.2} {showEntries (postProcess f t st dd es)}"
+  | ["c08optext"] => some (if tablesRenderAsText then "ok" else "differ")
   | "c08plan" :: args => do
     let (c, rest) ← mctx? args
     let (q, rest') ← query? rest
